@@ -1005,25 +1005,50 @@ def run(ctx):
             ctx.notes.append(f"crash case {cname}: the real parser now answers {st_r} (was {expect})")
         if len(pcs) == 1:
             walk_case({"schema": "rules", "crash_case": cname, "html": html}, rinfo, sid, pcs[0], st_r, "crash-case")
+    # a schema without any finite document (x needs an x): filling recurses for ever — RecursionError in the real code, fuel
+    # exhaustion (`.internal`) in the model; the schema guard `fillOk` of parse_no_internal is false for it
+    xinfo = codec.SchemaInfo(Schema({"nodes": {"doc": {"content": "x+"}, "x": {"content": "x+", "parseDOM": [{"tag": "x"}]}, "text": {}}}), "self-filling")
+    infos["self-filling"] = xinfo
+    for html in ("", "<x></x>"):
+        sid = ctx.driver.add_schema(xinfo)
+        dom = html_fragment(html)
+        (st_r, _), pcs = recorded(xinfo, lambda: DOMParser.from_schema(xinfo.schema).parse(dom))
+        ctx.count("crash_case:self-filling:" + st_r)
+        if len(pcs) == 1:
+            walk_case({"schema": "self-filling", "html": html}, xinfo, sid, pcs[0], st_r, "crash-case")
     ctx.guard(lambda: rules_spec_tie(ctx, parse_schemas + extra_schemas + [("rules", rinfo.schema), ("strip", sinfo.schema)]), "rules_spec_tie")
+    # the decidable schema hypotheses of the import theorems (Det, TextStable, LeafOk, fillOk) on every schema of the tie
+    hyps = {}
+    hyp_infos = list(infos.values())
+    houts = ctx.driver.run([{"op": "domHyps", "s": ctx.driver.add_schema(i)} for i in hyp_infos])
+    for i, o in zip(hyp_infos, houts):
+        h = o.get("ok") or {}
+        hyps[i.name] = h
+        allh = h.get("det") and h.get("textStable") and h.get("leafOk")
+        ctx.count("theorem_hypotheses_hold" if allh else "theorem_hypotheses_fail:" + i.name)
+        if not allh:
+            ctx.notes.append(f"schema {i.name}: Det={h.get('det')} TextStable={h.get('textStable')} LeafOk={h.get('leafOk')} — "
+                             "parse_valid / placement_finish_valid do not apply to it (placement_finish_marks does; placement_match_coherent needs Det)")
+        ctx.count("no_internal_schema_guard_holds" if h.get("det") and h.get("fillOk") else "no_internal_schema_guard_fails:" + i.name)
     if wreqs:
         outs = ctx.driver.run(wreqs)
         for (replay, info, pc, st_real, kind), out in zip(wmetas, outs):
             ctx.count("model_requests")
             walk_compare(ctx, replay, info, pc, st_real, out, kind)
+            # parse_no_internal: when its decidable guards hold of schema, rules, DOM and oracle, the real parse did not die
+            # with an internal error
+            g, sh = out.get("guards") or {}, hyps.get(info.name, {})
+            failing = [k for k, v in (("rulesOk", g.get("rulesOk")), ("domOk", g.get("domOk")), ("det", sh.get("det")),
+                                      ("fillOk", sh.get("fillOk"))) if not v]
+            if not failing:
+                ctx.count("no_internal_guards_hold")
+                if st_real == "internal":
+                    ctx.mismatch("parse_no_internal", replay, st_real, "the guards of parse_no_internal hold")
+            else:
+                ctx.count("no_internal_guards_fail:" + "+".join(failing))
             if kind == "parse_slice" and "open" in out and out["open"] != replay["open"]:
                 ctx.mismatch("walk-slice-open", replay, replay["open"], out["open"])
     if preqs:
-        # the decidable schema hypotheses of the placement theorems (Det, TextStable) on every schema of the tie
-        hyp_infos = list(infos.values())
-        houts = ctx.driver.run([{"op": "domHyps", "s": ctx.driver.add_schema(i)} for i in hyp_infos])
-        for i, o in zip(hyp_infos, houts):
-            h = o.get("ok") or {}
-            allh = h.get("det") and h.get("textStable") and h.get("leafOk")
-            ctx.count("theorem_hypotheses_hold" if allh else "theorem_hypotheses_fail:" + i.name)
-            if not allh:
-                ctx.notes.append(f"schema {i.name}: Det={h.get('det')} TextStable={h.get('textStable')} LeafOk={h.get('leafOk')} — "
-                                 "placement_finish_valid does not apply to it (placement_finish_marks does; placement_match_coherent needs Det)")
         outs = ctx.driver.run(preqs)
         for (replay, info, pc, kind), out in zip(pmetas, outs):
             ctx.count("model_requests")
